@@ -84,6 +84,12 @@ def compare_tagged(orig, tagged, log, path, seen, bad):
 
 
 class C12(ProgramProperty):
+    fuzz_target = 'fuzz_fold'
+
+    def fuzz_seeds(self):
+        from ..fuzz import program_seeds
+        return program_seeds()
+
     id = 'C12'
     configs = ('A', 'B')
     technique = ('model-comparison property testing: Hypothesis/PyGen programs (every node kind, optional fields present/absent, lists of length 0/1/many) run through '
